@@ -22,6 +22,8 @@ MAKERS = [
     ("top-ok", lambda r, m, kw: Feedback(label="top", category="instructor", priority="highest", message=m, correct=True, report=r, **kw), "instructor"),
     ("set_correct-first", lambda r, m, kw: set_correct(report=r, priority="highest", **kw), "complete"),
     ("style-bad", lambda r, m, kw: Feedback(label="sty", category="style", message=m, correct=False, report=r, **kw), "style"),
+    # positive valence and an else_message, but it does not declare the submission correct (e.g. a partial-credit group)
+    ("pos-else", lambda r, m, kw: Feedback(label="pe", category="specification", message=m, valence=1, else_message="all fine", report=r, **kw), "specification"),
 ]
 NEGATIVE_CATS = ("syntax", "runtime", "algorithmic", "instructor", "specification")
 
